@@ -59,10 +59,12 @@ Proof. unfold create_user. destruct (alookup (fold (s_name src)) (st_users s)); 
 Definition ext_user (rest : list str) (u1 : user) : user :=
   match rest with
   | acct :: rest2 =>
-      let ua := if streqb acct [42] then u1 else u_set_account u1 acct in
+      let ua := if streqb acct [42] then u_set_account u1 [] else u_set_account u1 acct in
       match rest2 with name :: _ => u_set_name ua name | [] => ua end
   | [] => u1
   end.
+Definition tag_user (tag : option str) (u : user) : user :=
+  match tag with Some a => u_set_account u a | None => u end.
 
 Lemma ext_user_abs rest u : abs_user (ext_user rest u) = ext_join rest (abs_user u).
 Proof. destruct rest as [|a [|b l]]; simpl; try reflexivity; destruct (streqb a [42]); reflexivity. Qed.
@@ -70,13 +72,15 @@ Lemma ext_user_perms rest u : u_perms (ext_user rest u) = u_perms u.
 Proof. destruct rest as [|a [|b l]]; simpl; try reflexivity; destruct (streqb a [42]); reflexivity. Qed.
 Lemma ext_user_chans rest u : u_chans (ext_user rest u) = u_chans u.
 Proof. destruct rest as [|a [|b l]]; simpl; try reflexivity; destruct (streqb a [42]); reflexivity. Qed.
+Lemma tag_user_perms tag u : u_perms (tag_user tag u) = u_perms u.
+Proof. destruct tag; reflexivity. Qed.
 
 Section Join.
 Variable cfg : config.
 Variables (s : state) (r : ref) (e : event).
 Hypothesis (I : Inv s) (F : Fresh s) (S : Sim s r) (W : RWf r).
-Variables (src : source) (chan : str) (rest : list str).
-Hypothesis (Hsrc : e_src e = Some src) (Hps : e_params e = chan :: rest).
+Variables (src : source) (chan : str) (rest : list str) (tag : option str).
+Hypothesis (Hsrc : e_src e = Some src) (Hps : e_params e = chan :: rest) (Htag : e_account_tag e = tag).
 
 Let kc := fold chan.
 Let kn := fold (s_name src).
@@ -104,8 +108,21 @@ Proof.
 Qed.
 
 Let c1 := c_set_users c0 (sort_strs (c_users c0 ++ [kn])).
-Let u1 := u_set_perms (u_set_chans u0 (sort_strs (u_chans u0 ++ [kc]))) (aset kc perms0 (u_perms u0)).
-Let u2 := ext_user rest u1.
+Let existed := match alookup kn (st_users s) with Some _ => true | None => false end.
+Let uP := if existed && (str_nonempty (s_ident src) || str_nonempty (s_host src))
+          then u_set_ident_host u0 (s_ident src) (s_host src) else u0.
+Let u1 := u_set_perms (u_set_chans uP (sort_strs (u_chans uP ++ [kc]))) (aset kc perms0 (u_perms uP)).
+Let u2 := ext_user rest (tag_user tag u1).
+
+Lemma uP_same : u_nick uP = u_nick u0 /\ u_chans uP = u_chans u0 /\ u_perms uP = u_perms u0.
+Proof. unfold uP. destruct (existed && _); repeat split. Qed.
+
+Lemma uP_abs : abs_user uP = tell_prefix src (abs_user u0).
+Proof.
+  unfold uP, tell_prefix, existed, u0. destruct (alookup kn (st_users s)) as [u|]; simpl.
+  - destruct (s_ident src); destruct (s_host src); reflexivity.
+  - destruct (s_ident src); destruct (s_host src); reflexivity.
+Qed.
 Let me_joins := streqb kn (fold (st_nick s)).
 
 Hypothesis Hme : st_nick s <> [].
@@ -125,12 +142,15 @@ Proof.
   { unfold lookup_channel. rewrite B1. unfold s1. rewrite create_channel_lookup, streqb_refl. reflexivity. }
   assert (Lu : lookup_user s2 (s_name src) = Some u0).
   { unfold lookup_user, s2. rewrite create_user_lookup, streqb_refl. rewrite A1. reflexivity. }
-  rewrite Lc, Lu.
-  assert (Ec1 : channel_add_user c0 (u_nick u0) = c1).
-  { unfold channel_add_user, channel_user_in. rewrite u0_key, Hnm. reflexivity. }
-  assert (Eu1 : user_add_channel u0 (c_name c0) = u1).
-  { unfold user_add_channel, user_in_channel. rewrite c0_key, u0_not_in. reflexivity. }
-  rewrite Ec1, Eu1. fold (ext_user rest u1). fold u2.
+  assert (Lex : match lookup_user s1 (s_name src) with Some _ => true | None => false end = existed).
+  { unfold lookup_user, existed. fold kn. rewrite A1. reflexivity. }
+  rewrite Lex, Lc, Lu. cbv zeta. fold uP. destruct uP_same as (P1 & P2 & P3).
+  assert (Ec1 : channel_add_user c0 (u_nick uP) = c1).
+  { unfold channel_add_user, channel_user_in. rewrite P1, u0_key, Hnm. reflexivity. }
+  assert (Eu1 : user_add_channel uP (c_name c0) = u1).
+  { assert (Hm : mem_str kc (u_chans uP) = false) by (rewrite P2; apply u0_not_in).
+    unfold user_add_channel, user_in_channel. rewrite c0_key, Hm. reflexivity. }
+  rewrite Ec1, Eu1, Htag. fold (tag_user tag u1). fold (ext_user rest (tag_user tag u1)). fold u2.
   set (s3 := set_users (set_channels s2 (aset (fold chan) c1 (st_channels s2))) (aset (fold (s_name src)) u2 (st_users s2))).
   assert (Hid : get_id cfg s3 = fold (st_nick s)).
   { unfold get_id, get_nick, s3. sproj. rewrite B3. rewrite A3. destruct (st_nick s); [congruence|reflexivity]. }
@@ -157,9 +177,9 @@ Let ru0 := match alookup kn (r_users r) with
            end.
 
 Lemma join_ref :
-  let r' := ref_join r src chan rest in
+  let r' := ref_join r src tag chan rest in
   (forall k, alookup k (r_chans r') = if streqb k kc then Some (add_member kn rc0) else alookup k (r_chans r)) /\
-  (forall k, alookup k (r_users r') = if streqb k kn then Some (ext_join rest ru0) else alookup k (r_users r)) /\
+  (forall k, alookup k (r_users r') = if streqb k kn then Some (join_tell src tag rest ru0) else alookup k (r_users r)) /\
   r_opts r' = r_opts r /\ r_me r' = r_me r /\ r_motd r' = r_motd r /\
   r_ident r' = (if is_me r (s_name src) then s_ident src else r_ident r) /\
   r_host r' = (if is_me r (s_name src) then s_host src else r_host r).
@@ -176,8 +196,8 @@ Proof.
   assert (X1 : r_opts r1 = r_opts r /\ r_me r1 = r_me r /\ r_motd r1 = r_motd r /\ r_ident r1 = r_ident r /\ r_host r1 = r_host r)
     by (unfold r1; destruct (alookup kc (r_chans r)); repeat split).
   destruct X1 as (X1 & X2 & X3 & X4 & X5).
-  set (r2 := upd_user (ensure_user r1 src) (s_name src) (ext_join rest)).
-  assert (U2 : forall k, alookup k (r_users r2) = if streqb k kn then Some (ext_join rest ru0) else alookup k (r_users r)).
+  set (r2 := upd_user (ensure_user r1 src) (s_name src) (join_tell src tag rest)).
+  assert (U2 : forall k, alookup k (r_users r2) = if streqb k kn then Some (join_tell src tag rest ru0) else alookup k (r_users r)).
   { intros k. unfold r2, upd_user. rproj. rewrite alookup_sm_adjust. change (key (s_name src)) with kn.
     unfold ensure_user. change (key (s_name src)) with kn. rewrite U1. unfold ru0.
     destruct (alookup kn (r_users r)) as [u|] eqn:E.
@@ -197,7 +217,7 @@ Proof.
 Qed.
 
 Lemma step_join_core : exists sF o, handle_join cfg s e = Ok (sF, o) /\ Fresh sF /\
-  (Inv sF -> Sim sF (ref_gc (ref_join r src chan rest))).
+  (Inv sF -> Sim sF (ref_gc (ref_join r src tag chan rest))).
 Proof.
   destruct join_result as (sF & o & Hh & LC & LU & O & N & M & Id & Ho).
   destruct join_ref as (RC & RU & RO & RN & RM & RI & RH).
@@ -209,7 +229,7 @@ Proof.
   - intros IF.
     assert (Hisme : is_me r (s_name src) = me_joins).
     { unfold is_me, me_joins. rewrite (sim_me _ _ S). reflexivity. }
-    assert (Wj : RWf (ref_join r src chan rest)) by apply rwf_join, W.
+    assert (Wj : RWf (ref_join r src tag chan rest)) by apply rwf_join, W.
     apply sim_gc; try assumption.
     + rewrite RN, N. apply S.
     + rewrite RI, Id, Hisme. destruct me_joins; [reflexivity|apply S].
@@ -219,9 +239,9 @@ Proof.
       intros k. rewrite LC, RC. pose proof (sim_chans _ _ S k) as HS.
       assert (PERM : forall k' n, (k' = kc /\ n = kn -> False) -> abs_perm sF k' n = abs_perm s k' n \/ ~ (exists c, alookup k' (st_channels s) = Some c /\ In n (c_users c))).
       { intros k' n Hn. unfold abs_perm. rewrite LU. destruct (streqb n kn) eqn:En; [|left; reflexivity].
-        apply streqb_eq in En. subst n. unfold u2. rewrite ext_user_perms. unfold u1. simpl u_perms. rewrite alookup_aset.
+        apply streqb_eq in En. subst n. unfold u2. rewrite ext_user_perms, tag_user_perms. unfold u1. cbn [u_perms u_set_perms u_set_chans]. rewrite alookup_aset.
         destruct (streqb k' kc) eqn:Ek'; [apply streqb_eq in Ek'; subst k'; exfalso; apply Hn; split; reflexivity|].
-        unfold u0. destruct (alookup kn (st_users s)) as [u|] eqn:Eu; [left; reflexivity|].
+        rewrite (proj2 (proj2 uP_same)). unfold u0. destruct (alookup kn (st_users s)) as [u|] eqn:Eu; [left; reflexivity|].
         right. intros (c & Hc & Hin). destruct (inv_cu I _ _ _ Hc Hin) as (u & Hu & _). congruence. }
       destruct (streqb k kc) eqn:Ek.
       * apply streqb_eq in Ek. subst k. unfold opt_rel.
@@ -236,7 +256,7 @@ Proof.
         intros n. rewrite alookup_sm_set by exact Ksm. unfold c1. simpl c_users. rewrite mem_str_sort_snoc.
         destruct (streqb n kn) eqn:En.
         -- apply streqb_eq in En. subst n. simpl. f_equal. unfold abs_perm. rewrite LU, streqb_refl.
-           unfold u2. rewrite ext_user_perms. unfold u1. simpl u_perms. rewrite alookup_aset_eq. reflexivity.
+           unfold u2. rewrite ext_user_perms, tag_user_perms. unfold u1. cbn [u_perms u_set_perms u_set_chans]. rewrite alookup_aset_eq. reflexivity.
         -- simpl. rewrite D. destruct (mem_str n (c_users c0)) eqn:Em; [|reflexivity]. f_equal.
            destruct (PERM kc n) as [P|P]; [intros [_ Hn]; subst n; rewrite streqb_refl in En; discriminate|symmetry; exact P|].
            (* the channel is new: no members *)
@@ -249,8 +269,9 @@ Proof.
         exfalso. apply P. exists c. split; [exact Ec|]. apply mem_str_in. exact Em.
     + (* users *)
       intros k u. rewrite LU, RU. destruct (streqb k kn) eqn:Ek.
-      * intros H; injection H as <-. f_equal. unfold u2. rewrite ext_user_abs. f_equal.
-        unfold u1, u0, ru0. rewrite (sim_users _ _ S). destruct (alookup kn (st_users s)); reflexivity.
+      * intros H; injection H as <-. f_equal. unfold u2, join_tell. rewrite ext_user_abs. f_equal.
+        assert (Eru : ru0 = abs_user u0) by (unfold u0, ru0; rewrite (sim_users _ _ S); destruct (alookup kn (st_users s)); reflexivity).
+        rewrite Eru, <- uP_abs. unfold u1. destruct tag; reflexivity.
       * intros H. rewrite (sim_users _ _ S), H. reflexivity.
     + intros k. rewrite RO, O. apply S.
 Qed.
@@ -266,12 +287,12 @@ Lemma step_JOIN : e_cmd e = c_JOIN -> cmd_ok r e = true -> step_ok cfg s r e.
 Proof.
   intros Hc Hok.
   assert (Hh : handle_cmd cfg s e = handle_join cfg s e) by (unfold handle_cmd, cmd_is; rewrite Hc; reduce_cmd c_JOIN; reflexivity).
-  assert (Hr : ref_cmd r e = match e_src e, e_params e with Some src, chan :: rest => ref_join r src chan rest | _, _ => r end)
+  assert (Hr : ref_cmd r e = match e_src e, e_params e with Some src, chan :: rest => ref_join r src (e_account_tag e) chan rest | _, _ => r end)
     by (unfold ref_cmd, cmdb; rewrite Hc; reduce_cmd c_JOIN; reflexivity).
   unfold cmd_ok, cmdb in Hok. rewrite Hc in Hok. reduce_cmd_in c_JOIN Hok.
   apply andb_prop in Hok. destruct Hok as [Hme Hok]. apply negb_true_iff in Hme.
   destruct (e_src e) as [src|] eqn:Hsrc; [|discriminate]. destruct (e_params e) as [|chan rest] eqn:Hps; [discriminate|].
-  apply andb_prop in Hok. destruct Hok as [Hok _]. apply andb_prop in Hok. destruct Hok as [_ Hmem].
+  apply andb_prop in Hok. destruct Hok as [_ Hmem].
   assert (Hme' : st_nick s <> []) by (rewrite <- (sim_me _ _ S); destruct (r_me r); [discriminate|congruence]).
   assert (Hnm : mem_str (fold (s_name src))
             (c_users match alookup (fold chan) (st_channels s) with
@@ -287,7 +308,7 @@ Proof.
       destruct (alookup (fold chan) (st_channels s)) as [c|]; destruct (alookup (fold chan) (r_chans r)) as [rc|]; try contradiction; [|reflexivity].
       pose proof (sc_members _ _ _ _ HS (fold (s_name src))) as Hm. change (key (s_name src)) with (fold (s_name src)) in Hmem.
       destruct (mem_str (fold (s_name src)) (c_users c)); [rewrite Hm in Hmem; discriminate|reflexivity]. }
-  destruct (step_join_core cfg s r e I F S W src chan rest Hsrc Hps Hnm Hme') as (sF & o & H1 & H2 & H3).
+  destruct (step_join_core cfg s r e I F S W src chan rest (e_account_tag e) Hsrc Hps eq_refl Hnm Hme') as (sF & o & H1 & H2 & H3).
   exists sF, o. rewrite Hh, Hr. split; [exact H1|]. split; [exact H2|exact H3].
 Qed.
 
